@@ -32,7 +32,10 @@ func init() {
 	definePart("C10", "c10/hooks-product", "qt", "15 entry points x 6 serving loggers (two of them fanning out to every appender type) x 3 ranges x 8 hook subsets x 4 contexts incl. nil (complete product)",
 		func(tier string, yield func(c10Case)) {
 			for _, ep := range eps {
-				for _, lg := range []string{"builtin", "sync", "async", "sync-filtered", "sync+every-appender", "async+every-appender"} {
+				for _, lg := range []string{"builtin", "sync", "async", "sync-filtered", "sync+every-appender", "async+every-appender",
+					// histories: the built-in logger after a configuration (whose root range is the Range of the case) was
+					// live and destroyed; a configured logger after a configuration with the OPPOSITE verdict for this level
+					"builtin/after-config", "sync/after-opposite", "async/after-opposite"} {
 					for _, r := range []string{"at", "above", "below"} {
 						if lg == "builtin" && r != "at" {
 							continue
@@ -67,6 +70,22 @@ func init() {
 			key := fmt.Sprintf("%s logger=%s range=%s hooks=%03b ctx=%d", c.EP, c.Logger, c.Range, c.Hooks, c.Ctx)
 			rng := map[string]string{"at": lv, "above": order[idx+1], "below": "NONE~" + lv}[c.Range]
 			enabled := c.Range == "at"
+			if hist := strings.SplitN(c.Logger, "/", 2); len(hist) == 2 {
+				prev := rng // builtin/after-config: the destroyed configuration had the range of the case
+				if hist[1] == "after-opposite" {
+					prev = map[bool]string{true: order[idx+1], false: lv}[enabled]
+				} else {
+					enabled = true // the built-in logger enables every level
+				}
+				pc := map[string]string{"appender.p0.type": "Rec", "logger.root.type": map[string]string{"builtin": "Logger", "sync": "AsyncLogger", "async": "Logger"}[hist[0]],
+					"logger.root.appenderRef.ref": "p0", "logger.root.level": prev}
+				if err, pn := safeRefresh(pc); err != nil || pn != nil {
+					return "refresh-failed", []Violation{{Clause: "valid-config-rejected", Key: key, Detail: fmt.Sprintf("previous configuration: err=%v panic=%v", err, pn)}}, 1
+				}
+				ep.call(context.Background(), tagC01, "previous-config")
+				log.Destroy()
+				c.Logger = hist[0]
+			}
 			if c.Logger != "builtin" {
 				conf := map[string]string{"appender.r0.type": "Rec", "logger.root.appenderRef.ref": "r0", "logger.root.level": rng}
 				if strings.HasSuffix(c.Logger, "+every-appender") {
